@@ -26,6 +26,6 @@ func main() {
 	})
 	repl.OfferedFiles(rep, args)
 	snapshotCleanupFails(rep)
-	faults.Run(rep, args, faults.Select{Ops: []string{"replica_snapshot"}, Monitors: []string{"replica-image"}})
+	faults.Run(rep, args, faults.Select{Ops: []string{"replica_snapshot"}, Monitors: []string{"replica-image"}, Kinds: faults.LocalKinds})
 	rep.Finish()
 }
